@@ -132,7 +132,7 @@ func (img *image) pristineCases(r *vk.Run, round, cfgIdx int) {
 		for k, v := range base {
 			js2[k] = v
 		}
-		r.Case(fmt.Sprintf("CTx %d %d %s (Ok %s) None None", maxTxEntries, maxKeyLen, vk.Hex(img.txlog[t.off:]), txTerm(t.hdr, t.entries)),
+		r.Case(fmt.Sprintf("CTx %d %d %d %s (Ok %s) None None", maxTxEntries, maxKeyLen, t.id, vk.Hex(img.txlog[t.off:]), txTerm(t.hdr, t.entries)),
 			js2, "pristine/read", true)
 		if img.cfg.embedded {
 			var vals []string
@@ -252,7 +252,7 @@ func (img *image) emit(r *vk.Run, round, cfgIdx, jobIdx int, j *job, res *jobRes
 	// of a case is the parsing of its byte strings
 	r.Stats["~ReadTx/"+res.readTx.class()]++
 	if !res.readTx.hung && (res.readTx.class() != "error" || jobIdx%2 == 0) {
-		r.Case(fmt.Sprintf("CTx %d %d %s %s %s %s", maxTxEntries, maxKeyLen, vk.Hex(stream), resTerm(res.readTx, ok), skipTerm, hdrTerm_),
+		r.Case(fmt.Sprintf("CTx %d %d %d %s %s %s %s", maxTxEntries, maxKeyLen, t.id, vk.Hex(stream), resTerm(res.readTx, ok), skipTerm, hdrTerm_),
 			js, "ReadTx/"+fam+"/"+res.readTx.class(), true)
 	}
 	if img.cfg.compression == 0 && len(res.sess) > 0 {
